@@ -241,7 +241,7 @@ PRED = ['count-names', 'dims', 'hierarchical', 'special-dims', 'unique', 'order'
 STRUCT = PRED[:8]
 
 
-def run_pop_history(real, factory, seq, opmap):
+def run_pop_history(real, factory, seq, opmap, label=''):
     """returns None or (predicate, message, executed history)"""
     m = factory()
     custom = set()          # which kinds of names are currently user-supplied ("default naming" = none)
@@ -257,6 +257,10 @@ def run_pop_history(real, factory, seq, opmap):
         try:
             op(m)
             done.append(nm)
+            if nm.startswith('set_n_ids') and 'Heterogeneous' not in label and list(m.get_parameter_names()) != names_before:
+                # the number of individuals changes the parameters of heterogeneous dimensions only: everything else -- in particular
+                # which population parameters depend on covariates -- is as configured before
+                return 'order', '%s turns the parameter names %s into %s although the model has no heterogeneous dimension' % (nm, names_before, list(m.get_parameter_names())), done
             if nm in ('fix(first)', 'fix(last)'):
                 # fixing by name removes exactly the named parameter from the published names (the others keep their order)
                 gone = names_before[0] if nm == 'fix(first)' else names_before[-1]
@@ -429,7 +433,7 @@ def population(rec, family):
                 if any(not applicable((nm, opmap[nm]), m0) for nm in seq):
                     continue
                 n_hist += 1
-                r = run_pop_history(real, factory, seq, opmap)
+                r = run_pop_history(real, factory, seq, opmap, label)
                 if r is not None:
                     key = (r[0], signature(r[0], label, r[2]))
                     if len(fails.setdefault(key, [])) < 40:
